@@ -75,11 +75,12 @@ Definition pre_node (k : nat) : node :=
 
 Definition new_bytes (i : nat) : list nat := [100 + i].
 
-(* entry 0 = Trajectory.save, 1 = md.open(..,'w') + write + close.
+(* entry 0 = Trajectory.save, 1 = md.open(..,'w') + write + close ([ext] is then the key of the md.open branch
+   the argument type reaches: "gro" or "gro@b0"), 2 = the file class called directly.
    The base name is 0; [pre_at] = 0 puts the pre-existing node at the base path, j>0 at "name.j".
    Result: (raised?, status of the paths (0,0), (0,1) .. (0,3)) *)
 Definition predict (ext : string) (entry pre pre_at frames : nat) (force : bool) : option (bool * list status) :=
-  match (if Nat.eqb entry 0 then lookup ext savers else lookup ext openers) with
+  match (if Nat.eqb entry 0 then lookup ext savers else if Nat.eqb entry 1 then lookup ext openers else lookup ext direct) with
   | None => None
   | Some p =>
       let F0 : fs := fun q => if path_eqb q (0, pre_at) then pre_node pre else None in
@@ -89,14 +90,16 @@ Definition predict (ext : string) (entry pre pre_at frames : nat) (force : bool)
             map (fun i => classify (F0 (0, i)) (F1 (0, i)) (new_bytes i)) [0; 1; 2; 3])
   end.
 
-(* md.open(path, 'w', force_overwrite) without writing, then close: only the constructor runs *)
-Definition predict_open_only (ext : string) (pre : nat) (force : bool) : option (bool * status) :=
-  match lookup ext readers with
-  | None => None
-  | Some c =>
-      let '(o, s) := run_ang c {| e_mode := MW; e_force := force; e_unk := fun _ => false |}
-                         {| s_node := pre_node pre; s_h := HNone |} in
+(* md.open(path, 'w', force_overwrite) without writing, then close: only the constructor runs, with the mode and
+   force_overwrite that the md.open branch [key] hands on *)
+Definition predict_open_only (key : string) (pre : nat) (force : bool) : option (bool * status) :=
+  match lookup key openers with
+  | Some (SWith c m f) =>
+      let fo := match f with FPass => force | FLit b => b end in
+      let '(o, s) := run_ang c {| e_mode := m; e_force := fo; e_unk := fun _ => false |}
+                             {| s_node := pre_node pre; s_h := HNone |} in
       Some (match o with Error => true | Normal => false end, classify (pre_node pre) (s_node s) [])
+  | _ => None
   end.
 
 Definition res_eqb (a b : option (bool * list status)) : bool :=
